@@ -127,6 +127,8 @@ Inductive cphase18 :=
 | PConnectingLate(* ... and the select took the new connection: a session that nobody aborts *)
 | PRecovery      (* resendLeftovers on the aborted session *)
 | PRetryWait     (* inputClosed.Wait(ForwarderRetryInterval) *)
+| PHandOver      (* sendChunk: the chunk is written, ackerChan is full (ForwarderMaxPendingChunksForAck chunks wait for
+                    their ACK): select { ackerChan <- chunk | inputClosed | ackerEnded } *)
 | PStuck.        (* a consumer that never finishes (not the real client): only Destroy's deadline remains *)
 
 (* clientSession.collectLeftovers: close(ackerChan); ackerAbort.Signal(); abortConn (all non-blocking);
@@ -174,6 +176,10 @@ Definition client (p : params) (sh : shape) (ph : cphase18) : wg :=
         (Seq (seqn (n_left sh) (Seq (send_live p) (Wait true None))) (Seq (collect p) (final sh)))
   | PRecovery => Seq (send_aborted p) (after_failed_send p sh)
   | PRetryWait => Seq (Wait true (Some (t_retry p))) (final sh)
+  | PHandOver =>
+    (* the select takes the stop signal: "aborted before queueing chunk for ack"; the chunk stays in lastChunk and is
+       collected with the others *)
+    Seq (Wait true None) (Seq (collect p) (final sh))
   | PStuck => Wait false None
   end.
 
@@ -288,7 +294,7 @@ Definition variant (s : cstate) (w : Z) : Z := stage (c_phase s) * (7 * load s w
 Definition phase_of (z : Z) : cphase18 :=
   match z with
   | 0 => PIdle | 1 => PWaitAck | 2 => PSending | 3 => PSendingLate | 4 => PConnecting
-  | 5 => PConnectingLate | 6 => PRecovery | 7 => PRetryWait | _ => PStuck
+  | 5 => PConnectingLate | 6 => PRecovery | 7 => PRetryWait | 9 => PHandOver | _ => PStuck
   end.
 
 Definition opt_text (o : option Z) : bytes :=
